@@ -3,7 +3,7 @@
 // sqrt_constexpr_available). Included by the generated consteval TUs (engine E4).
 #pragma once
 #include "cut_helpers.h"
-#define ENTRY_CE(name, ...)   constexpr int64_t ce_##name(int64_t a, int64_t b, int64_t c) { (void)a; (void)b; (void)c; return static_cast<int64_t>(__VA_ARGS__); }
+#define ENTRY_CE(name, ...)   template<int Dummy_ = 0> constexpr int64_t ce_##name(int64_t a, int64_t b, int64_t c) { (void)a; (void)b; (void)c; return static_cast<int64_t>(__VA_ARGS__); }
 #define ENTRY_CESQ(name, ...) ENTRY_CE(name, __VA_ARGS__)
 #define ENTRY_RT(name, ...)
 #define ENTRY(name, args, ret, flags, ...) ENTRY_##flags(name, __VA_ARGS__)
